@@ -214,6 +214,14 @@ where
         if let Poll::Ready(v) = fut.as_mut().poll(&mut cx) {
             return Some(v);
         }
+        // (no scheduling point lies between take()'s last look at the reference count and here)
+        if stats.released.load(SeqCst) == stats.others {
+            sim::raise(
+                "pending-as-sole-owner",
+                format!("take() returned Pending although all {} other handles had been released completely before its poll ended: it did not look at the reference count again after registering its waker", stats.others),
+            );
+            return None;
+        }
         while !pw.flag.load(SeqCst) {
             if stats.released.load(SeqCst) == stats.others {
                 // every other handle has been released completely and no wake is outstanding
